@@ -125,7 +125,93 @@ func NewRealm() *Realm {
 	mk := func() *Obj { return &Obj{Class: CObject, Proto: rt.ObjectProto} }
 	rt.ArrayProto, rt.NumberProto, rt.StringProto, rt.BooleanProto = mk(), mk(), mk(), mk()
 	rt.BigIntProto, rt.SymbolProto, rt.FunctionProto = mk(), mk(), mk()
+	rt.installBuiltins()
 	return rt
+}
+
+// builtin makes a native function object.
+func builtin(name string, call func(rt *Realm, this V, a []V) (V, error)) *Obj {
+	return &Obj{Class: CFunction, Fn: &Func{ID: "builtin:" + name, Call: call}}
+}
+
+// installBuiltins defines the inherited standard properties that generated cases can reach by name (allow-list entries
+// such as "constructor", "toString", "valueOf", "__proto__", "length"): non-enumerable, function-valued except where
+// noted.  Keys that look like identifiers and are not in the generator's fixed pools are never generated, so the other
+// standard methods (Array.prototype.map, …) are not modelled.
+func (rt *Realm) installBuiltins() {
+	nop := func(name string) *Obj {
+		return builtin(name, func(rt *Realm, this V, a []V) (V, error) { return Undefined, nil })
+	}
+	thisPrim := func(this V, cls Class, k Kind) (V, bool) {
+		if this.K == k {
+			return this, true
+		}
+		if this.K == KObject && this.O.Class == cls {
+			return this.O.Prim, true
+		}
+		return Undefined, false
+	}
+	primMethods := func(proto *Obj, ctor string, cls Class, k Kind, toStr func(V) string) {
+		proto.DefineHidden("constructor", ObjV(nop(ctor)))
+		proto.DefineHidden("valueOf", ObjV(builtin(ctor+".prototype.valueOf", func(rt *Realm, this V, a []V) (V, error) {
+			if p, ok := thisPrim(this, cls, k); ok {
+				return p, nil
+			}
+			return Undefined, typeError()
+		})))
+		proto.DefineHidden("toString", ObjV(builtin(ctor+".prototype.toString", func(rt *Realm, this V, a []V) (V, error) {
+			if p, ok := thisPrim(this, cls, k); ok {
+				return Str(toStr(p)), nil
+			}
+			return Undefined, typeError()
+		})))
+	}
+	op := rt.ObjectProto
+	op.DefineHidden("constructor", ObjV(nop("Object")))
+	op.DefineHidden("toString", ObjV(builtin("Object.prototype.toString", func(rt *Realm, this V, a []V) (V, error) {
+		return Str("[object Object]"), nil // only reached for plain objects inside the generator's domain
+	})))
+	op.DefineHidden("toLocaleString", ObjV(nop("Object.prototype.toLocaleString")))
+	op.DefineHidden("valueOf", ObjV(builtin("Object.prototype.valueOf", func(rt *Realm, this V, a []V) (V, error) {
+		if o := thisObj(this); o != nil {
+			return ObjV(o), nil
+		}
+		return Undefined, typeError()
+	})))
+	for _, n := range []string{"hasOwnProperty", "isPrototypeOf", "propertyIsEnumerable", "__defineGetter__", "__defineSetter__", "__lookupGetter__", "__lookupSetter__"} {
+		op.DefineHidden(n, ObjV(nop("Object.prototype."+n)))
+	}
+	// Object.prototype.__proto__ is an accessor returning the receiver's prototype
+	op.Props = append(op.Props, &Prop{Key: "__proto__", Getter: builtin("get __proto__", func(rt *Realm, this V, a []V) (V, error) {
+		o := thisObj(this)
+		if o == nil {
+			return Undefined, typeError()
+		}
+		if p := rt.protoOf(o); p != nil {
+			return ObjV(p), nil
+		}
+		return Null, nil
+	})})
+	ap := rt.ArrayProto
+	ap.DefineHidden("length", Num(0))
+	ap.DefineHidden("constructor", ObjV(nop("Array")))
+	ap.DefineHidden("toString", ObjV(nop("Array.prototype.toString")))
+	primMethods(rt.NumberProto, "Number", CNumber, KNumber, func(p V) string { return NumberToString(p.N) })
+	primMethods(rt.StringProto, "String", CString, KString, func(p V) string { return p.S })
+	rt.StringProto.DefineHidden("length", Num(0))
+	primMethods(rt.BooleanProto, "Boolean", CBoolean, KBool, func(p V) string {
+		if p.B {
+			return "true"
+		}
+		return "false"
+	})
+	primMethods(rt.BigIntProto, "BigInt", CBigInt, KBigInt, func(p V) string { return p.S })
+	primMethods(rt.SymbolProto, "Symbol", CSymbol, KSymbol, func(p V) string { return "Symbol(" + p.S + ")" })
+	fp := rt.FunctionProto
+	fp.DefineHidden("length", Num(0))
+	fp.DefineHidden("name", Str(""))
+	fp.DefineHidden("constructor", ObjV(nop("Function")))
+	fp.DefineHidden("toString", ObjV(nop("Function.prototype.toString")))
 }
 
 // ProtoByName returns an intrinsic prototype ("Object", "Array", "Number", "String", "Boolean", "BigInt", "Symbol", "Function").
@@ -499,8 +585,8 @@ func ToStringPrim(v V) (string, error) {
 	return "", typeError() // symbol
 }
 
-// toPrimitive is OrdinaryToPrimitive over the methods the model knows: own "valueOf"/"toString" overrides taken
-// from the catalogue, else the built-in behaviour of the boxed classes.
+// toPrimitive is OrdinaryToPrimitive: "valueOf"/"toString" are looked up like any property (own overrides from the
+// catalogue, else the built-in methods installed on the intrinsic prototypes).
 func (rt *Realm) toPrimitive(o *Obj, hintString bool) (V, error) {
 	order := []string{"valueOf", "toString"}
 	if hintString {
@@ -518,24 +604,6 @@ func (rt *Realm) toPrimitive(o *Obj, hintString bool) (V, error) {
 			}
 			if r.K != KObject {
 				return r, nil
-			}
-			continue
-		}
-		if f.K != KUndefined {
-			continue // present but not callable
-		}
-		// built-in method of the intrinsic prototype
-		r := o.real()
-		switch {
-		case m == "valueOf" && (r.Class == CNumber || r.Class == CString || r.Class == CBoolean || r.Class == CBigInt || r.Class == CSymbol) && o.Class != CProxy:
-			return r.Prim, nil
-		case m == "toString" && o.Class != CProxy:
-			switch r.Class {
-			case CNumber, CString, CBoolean, CBigInt:
-				s, _ := ToStringPrim(r.Prim)
-				return Str(s), nil
-			case CObject:
-				return Str("[object Object]"), nil
 			}
 		}
 	}
